@@ -460,3 +460,61 @@ Proof.
   induction gs as [|[h ss] r IH]; intros b; [reflexivity|]. cbn [filter].
   destruct h as [prim pub cs l|isu c|s| |st i|i|i]; cbn [stray_group fst negb drop_skipped]; rewrite ?IH; try reflexivity.
 Qed.
+
+(* ---------- a primary key of unknown version between two exported keys: the neighbours come back as if it were not there ---------- *)
+(* the groups of an export pass the skipping pass whole, and leave it not skipping *)
+Lemma drop_skipped_kgroups_app : forall k b rest, drop_skipped b (kgroups k ++ rest) = kgroups k ++ drop_skipped false rest.
+Proof.
+  assert (Hu : forall us rest, drop_skipped false (map guid us ++ rest) = map guid us ++ drop_skipped false rest).
+  { induction us as [|u us IH]; intros rest; [reflexivity|]. cbn [map app]. unfold guid at 1. cbn [drop_skipped]. rewrite IH. reflexivity. }
+  assert (Hs : forall sks rest, drop_skipped false (map gsub sks ++ rest) = map gsub sks ++ drop_skipped false rest).
+  { induction sks as [|sk sks IH]; intros rest; [reflexivity|]. cbn [map app]. unfold gsub at 1. cbn [drop_skipped]. rewrite IH. reflexivity. }
+  intros k b rest.
+  change (kgroups k ++ rest)
+    with ((PKey true (p_public k) true (p_label k), export_sigs (tops (p_sigs k))) :: (map guid (p_uids k) ++ map gsub (p_subs k)) ++ rest).
+  cbn [drop_skipped]. rewrite <- app_assoc, Hu, Hs. unfold kgroups. rewrite <- app_comm_cons, <- app_assoc. reflexivity.
+Qed.
+
+(* the head of every group of a packet list is one of its packets *)
+Lemma groups_heads_in : forall ps g, In g (snd (groups ps)) -> In (fst g) ps.
+Proof.
+  induction ps as [|p r IH]; intros g Hg; [destruct Hg|]. cbn [groups] in Hg. destruct (groups r) as [lead gs] eqn:E.
+  destruct (is_sigpkt p); cbn [snd] in Hg.
+  - right. apply IH. exact Hg.
+  - destruct Hg as [<-|Hg]; [left; reflexivity|right; apply IH; exact Hg].
+Qed.
+
+(* while skipping, groups that are not headed by an understood primary key packet leave no trace and do not end the skipping *)
+Lemma drop_skipped_true_app : forall gj rest, (forall g, In g gj -> match fst g with PKey true _ _ _ => False | _ => True end) ->
+  drop_skipped true (gj ++ rest) = drop_skipped true rest.
+Proof.
+  induction gj as [|[h ss] r IH]; intros rest H; [reflexivity|]. cbn [app drop_skipped].
+  pose proof (H (h, ss) (or_introl eq_refl)) as Hh. cbn [fst] in Hh.
+  assert (Hr : drop_skipped true (r ++ rest) = drop_skipped true rest) by (apply IH; intros g Hg; apply H; right; exact Hg).
+  destruct h as [prim pub cs l|isu c|s| |st id|id|id]; try exact Hr. destruct prim; [contradiction|exact Hr].
+Qed.
+
+Theorem unknown_primary_between_exports : forall k1 k2 (junk : list packet) v,
+  wf_pub k1 -> wf_pub k2 -> kid k1 <> kid k2 ->
+  (forall p, In p junk -> match p with PKey true _ _ _ => False | _ => True end) ->
+  import (export k1 ++ POpaqueKey v :: junk ++ export k2) = Ok [copy (strip_nonexportable k1); copy (strip_nonexportable k2)].
+Proof.
+  intros k1 k2 junk v H1 H2 Hne Hj. unfold import, import_with.
+  rewrite filter_app. cbn [filter not_trust]. rewrite filter_app.
+  rewrite (filter_all_true _ _ (export_not_trust k1)), (filter_all_true _ _ (export_not_trust k2)).
+  set (fj := filter not_trust junk).
+  assert (G2 : groups (export k2) = ([], kgroups k2)).
+  { pose proof (groups_export k2 [] eq_refl) as G. rewrite !app_nil_r in G. exact G. }
+  assert (Gj : groups (fj ++ export k2) = (fst (groups fj), snd (groups fj) ++ kgroups k2)).
+  { rewrite (groups_app_nolead fj (export k2)) by (rewrite G2; reflexivity). rewrite G2. reflexivity. }
+  assert (Gr : groups (POpaqueKey v :: fj ++ export k2) = ([], (POpaqueKey v, fst (groups fj)) :: snd (groups fj) ++ kgroups k2)).
+  { cbn [groups]. rewrite Gj. reflexivity. }
+  rewrite (groups_export k1 (POpaqueKey v :: fj ++ export k2)) by (rewrite Gr; reflexivity). rewrite Gr. cbn [snd].
+  rewrite drop_skipped_kgroups_app. cbn [drop_skipped].
+  rewrite drop_skipped_true_app.
+  - rewrite <- (app_nil_r (kgroups k2)) at 1. rewrite drop_skipped_kgroups_app. cbn [drop_skipped]. rewrite app_nil_r.
+    pose proof (import_keys_groups [k1; k2] [] None) as I. cbn [flat_map map app] in I. rewrite app_nil_r in I. apply I.
+    + intros k [<-|[<-|[]]]; assumption.
+    + constructor; [intros [E|[]]; congruence|constructor; [intros []|constructor]].
+  - intros g Hg. apply groups_heads_in in Hg. unfold fj in Hg. apply filter_In in Hg. destruct Hg as [Hg _]. exact (Hj _ Hg).
+Qed.
